@@ -58,6 +58,11 @@ ASSUMPTIONS = [
 ]
 
 logging.disable(logging.CRITICAL)
+try:                                      # numexpr wakes one thread per core for every tiny selection string
+    import numexpr
+    numexpr.set_num_threads(1)
+except Exception:  # noqa: BLE001
+    pass
 threading.excepthook = lambda a: None     # pipeline threads of failing requests print tracebacks otherwise
 
 U = 1953125            # 2**-9 s in ns: seconds_range endpoints m/512 s are exact in float arithmetic
@@ -1035,6 +1040,19 @@ def _run(ctx, rng):
                         "inside or one step outside any row or chunk boundary (incl. empty ranges); the other runs with a sample of such ranges; non-trivial = an endpoint strictly inside the run",
                    branch=lambda c, o: c["layout"] + ":" + ("err" if o.startswith("err") else ("nochunk" if o == "ok -" else f"chunks={len(o[3:].split(' '))}")))
 
+    # ---- 3b. every stored layout lies inside the hypothesis of the theorems (decidable `LawAbiding`, evaluated by the driver)
+    def impl_hyp(case):
+        chunks = W.stored(case["layout"], case["run"], case["dt"])
+        ok = gen.law_abiding(chunks) is None and all(a >= 0 for a, _, _ in chunks) and \
+            all(t < e for _, _, rows in chunks for t, e, _ in rows)
+        return f"ok law={int(ok)}"
+    hyp_cases = [dict(layout=lay, run=run_id, dt=dt) for lay in ("orig", "tiny", "giant") for run_id in W.runs for dt in ("src", "dep")]
+    ctx.correspond("hypothesis/law-abiding", hyp_cases, impl_hyp, lambda c: f"c10.hyp {W.layout_tok(c['layout'], c['run'], c['dt'])}",
+                   lambda c, o: None if o == "ok law=1" else "a stored layout produced by the real savers is not law-abiding",
+                   exhaustive=True, in_hyp=lambda c, o: o == "ok law=1",
+                   rule="the chunk lists read back from every directory satisfy the decidable hypothesis `Strax.Selection.LawAbiding` of the theorems "
+                        "(Python check of the laws vs the driver's `lawAbidingB`)")
+
     # ---- 4. get_array end to end
     k = itertools.count()
     cases = []
@@ -1056,16 +1074,17 @@ def _run(ctx, rng):
                     for p in procs:
                         cases.append(base_case(next(k), "a", lay, tg, p, {"tr": list(tr)}, mode))
                 else:
-                    cases.append(base_case(next(k), "a", lay, tg, procs[j % 2], {"tr": list(tr)}, mode))
+                    # the threaded processor costs ~5x more per request: every 4th range in the quick tier
+                    cases.append(base_case(next(k), "a", lay, tg, procs[1 if j % 4 == 0 else 0], {"tr": list(tr)}, mode))
     ctx.correspond("get_array/ranges-exhaustive", cases, impl_get, op_get, oracle_get, nontrivial=nontrivial_get, exhaustive=True,
                    rule="stored run `a` (5 rows: overlapping, touching, gap, same start): ALL time ranges with endpoints on / one step inside / one step outside every row and chunk "
                         "boundary of any layout (incl. empty ranges) x {fully_contained, touching} x targets src | dep | (src,dep) together from differently chunked directories x "
-                        "layouts orig / tiny / giant / mixed; processors alternate (quick) or both (thorough)",
+                        "layouts orig / tiny / giant / mixed; single-thread processor with the threaded one on every 4th range (quick) or both on all (thorough)",
                    branch=branch_get)
     _SIDE.clear()
     # 4b random: all runs, all argument kinds
     cases = []
-    for _ in range(ctx.pick(1500, 12000)):
+    for _ in range(ctx.pick(1200, 12000)):
         run_id = rng.choice(W.runs)
         lay, tg = rng.choice(combos)
         r = _RUNS[run_id]
@@ -1094,7 +1113,7 @@ def _run(ctx, rng):
             ta["tw_enc"] = rng.choice(["end", "len"])
         keep, drop = random_cols(rng, fields, ident)
         mode = rng.choice(["fc", "fc", "to", "to", "skip", "bogus"]) if rng.random() < 0.15 else rng.choice(["fc", "to"])
-        cases.append(base_case(next(k), run_id, lay, tg, rng.choice(procs), ta, mode, random_pred(rng, run_id), keep, drop,
+        cases.append(base_case(next(k), run_id, lay, tg, procs[1 if rng.random() < 0.3 else 0], ta, mode, random_pred(rng, run_id), keep, drop,
                                form=rng.choice(["str", "list", "call"]), keep_tuple=not (keep and len(keep) == 1 and rng.random() < 0.5),
                                explicit_mode=rng.random() < 0.5))
     ctx.correspond("get_array/random", cases, impl_get, op_get, oracle_get, nontrivial=nontrivial_get,
@@ -1164,7 +1183,7 @@ def search(ctx):
         cases = []
         for run_id in W.runs:
             pts = W.endpoints(run_id)
-            for _ in range(250):
+            for _ in range(100):
                 a, b = sorted((rng.choice(pts), rng.choice(pts)))
                 for lay, tg in (("orig", ("src",)), ("tiny", ("src",)), ("giant", ("src",)), ("mix_gt", ("src", "dep"))):
                     cases.append(base_case(next(k), run_id, lay, tg, rng.choice(["single_thread", "threaded_mailbox"]), {"tr": [a, b]}, rng.choice(["fc", "to"])))
